@@ -21,7 +21,7 @@ REQUIRED = ["log_prob", "kl", "kl_identical_zero", "rsample_LLt", "index_mean", 
 ASSUMPTIONS = ["random SPD covariances with condition number < 1e3; event sizes <= 6; stochastic fast-path pieces (SLQ) are not reached at these sizes (Cholesky below max_cholesky_size)"]
 ANCHOR_FILES = ["gpytorch/distributions/multivariate_normal.py", "gpytorch/distributions/delta.py"]
 
-REPS = ["dense", "linop", "root", "diag", "addeddiag", "kron", "lazykernel", "bcast"]
+REPS = ["dense", "linop", "root", "wideroot", "diag", "addeddiag", "kron", "lazykernel", "bcast"]
 DBATCH = [[], [2], [3, 2], [1, 2]]
 VBATCH = [[], [2], [3, 2], [5, 3, 2], [3, 1]]
 
@@ -36,7 +36,7 @@ def cases(tier, seed):
             if tier == "quick" and rnd.random() < 0.6:
                 continue
             yield {"kind": "logprob", "N": N, "dbatch": db, "vbatch": vb, "rep": rep, "fast": fast, "mean_less": rnd.random() < 0.3, "seed": rnd.randrange(10**6)}
-        for N, b1, b2, r1, r2 in itertools.product([1, 3], DBATCH, DBATCH, ["dense", "linop", "root", "diag"], ["dense", "kron", "addeddiag"]):
+        for N, b1, b2, r1, r2 in itertools.product([1, 3], DBATCH, DBATCH, ["dense", "linop", "root", "wideroot", "diag"], ["dense", "kron", "addeddiag", "wideroot"]):
             if tier == "quick" and rnd.random() < 0.5:
                 continue
             yield {"kind": "kl", "N": N if r2 != "kron" else 4, "b1": b1, "b2": b2, "r1": r1, "r2": r2, "seed": rnd.randrange(10**6)}
@@ -64,7 +64,7 @@ def cases(tier, seed):
             ntens = sum(1 for e in c if isinstance(e, list) and e[0] == "t")
             if ntens > 1:
                 continue  # several index tensors pair up / mix batch elements: outside "marginal of selected components"
-            for rep in (["dense"] if tier == "quick" else ["dense", "root"]):
+            for rep in (["dense", "diag"] if tier == "quick" else ["dense", "root", "diag", "wideroot", "lazykernel"]):
                 yield {"kind": "index", "shape": shape, "idx": c, "rep": rep, "seed": rnd.randrange(10**6)}
     if tier == "thorough":
         for N, db, rep in itertools.product([2, 4], [[], [2]], ["dense", "root", "kron", "lazykernel"]):
@@ -96,6 +96,10 @@ def make_cov(rep, g, batch, N):
         return DenseLinearOperator(c), c
     if rep == "root":
         R = util.randn(g, *batch, N, N) + 0.5 * torch.eye(N)
+        return RootLinearOperator(R), R @ R.transpose(-1, -2)
+    if rep == "wideroot":
+        # full-rank covariance held as a non-square n x (n+2) root
+        R = util.randn(g, *batch, N, N + 2)
         return RootLinearOperator(R), R @ R.transpose(-1, -2)
     if rep == "lowrank":
         R = util.randn(g, *batch, N, max(1, N - 1))
@@ -216,16 +220,18 @@ def _sample(case, ctx, g):
     mean = util.randn(g, *db, N)
     d = MVN(mean, cov_obj)
     C = C.expand(*db, N, N)
-    zero = d.rsample(base_samples=torch.zeros(*db, N))
+    r = d.base_sample_shape[-1]  # the documented length of base samples (a non-square root has r > N)
+    ctx.expect("base_sample_length", r == N or case["rep"] == "wideroot", f"base_sample_shape {tuple(d.base_sample_shape)} for N={N}")
+    zero = d.rsample(base_samples=torch.zeros(*db, r))
     ctx.close("rsample_zero_is_mean", zero, mean, "direct", cls=case["rep"])
     cols = []
-    for k in range(N):
-        e = torch.zeros(*db, N)
+    for k in range(r):
+        e = torch.zeros(*db, r)
         e[..., k] = 1.0
         cols.append(d.rsample(base_samples=e) - zero)
     L = torch.stack(cols, -1)
     ctx.close("rsample_LLt", L @ L.transpose(-1, -2), C, "direct", cls=case["rep"])
-    e = util.randn(g, 4, 3, *db, N)
+    e = util.randn(g, 4, 3, *db, r)
     got = d.rsample(base_samples=e)
     ref = mean + (L @ e.unsqueeze(-1)).squeeze(-1)
     ctx.close("rsample_linear", got, ref, "direct", cls=case["rep"])
